@@ -42,12 +42,22 @@
     `#yield` it answers directly before it (among the two kinds of events) — whatever the driver does (next,
     send, throw, close, drop); `C06_rewritten_yield_receive_paired` for the REWRITTEN function.  That a yield
     resumed by a value does report `#receive` is `C06_yield_then_receive`.
-  Not proved: that `#value` is delivered exactly once per normal completion (it is FALSE: findings F7c / F7d).
+  * `C06_value_once_partial` (Proofs/ValueOnce.lean, a relational induction over statements in the style of
+    Balance.lean): for every function of the core fragment WITHOUT `with` blocks and `finally` clauses
+    (`plainB`), capture set that takes `#enter / #exit / #error / #value`, input and driver script: among the
+    events of the whole activation those named `#value` are exactly one, carrying the value returned, when
+    the activation ends by returning (a `return`, or falling off the end), and none when it ends any other way;
+    `C06_rewritten_value_once_partial` for the REWRITTEN function; `C06_value_count_partial` in counting form.
+    The FULL statement (every function of the fragment) is false of the model and of ptera alike:
+    `C06_value_twice_with_finally` is the witness in the model (a `return` inside `try` whose `finally` clause
+    returns again: two `#value` events for one completion), findings F7c / F7d are the same inputs replayed on
+    ptera by the check.  What is missing for the full statement is therefore not a proof but a repair of ptera.
 -/
 import PteraModel.Proofs.PyLiteSpec
 import PteraModel.Proofs.InvEvents
 import PteraModel.Proofs.Balance
 import PteraModel.Proofs.YieldPair
+import PteraModel.Proofs.ValueOnce
 namespace Ptera.Props.C06
 open Ptera.Py Ptera.Sem
 
@@ -292,6 +302,51 @@ theorem C06_rewritten_yield_receive_paired (cfg : Cfg)
   rw [o1.hs]
   exact yield_receive_paired (scopeRef cfg f) cfg hE hX hEr hYR fuel f hf st0 h0
 
+/-- PARTIAL (no `with`, no `finally`): `#value` is recorded exactly once, with the value returned, when the
+    activation of the reference semantics returns, and not at all otherwise -/
+theorem C06_value_once_partial (sc : String → Bool) (cfg : Cfg)
+    (hE : shouldInstr cfg "#enter" ["enter"] = true) (hX : shouldInstr cfg "#exit" ["exit"] = true)
+    (hEr : shouldInstr cfg "#error" [] = true) (hVal : shouldInstr cfg "#value" [] = true)
+    (fuel : Nat) (f : FunDef) (hf : coreF f = true) (hp : plainB (bodyWithReturn f) = true)
+    (st0 : St PyLite.World PyLite.HState) (h0 : MarkerFree PyLite.Good PyLite.WInv st0) :
+    ∃ w, (runRef (recEnv sc cfg) fuel f st0).2.hs.events = st0.hs.events ++ w
+      ∧ ValProp (runRef (recEnv sc cfg) fuel f st0).1 w :=
+  value_once sc cfg hE hX hEr hVal fuel f hf hp st0 h0
+
+/-- … and of the rewritten function -/
+theorem C06_rewritten_value_once_partial (cfg : Cfg)
+    (hE : shouldInstr cfg "#enter" ["enter"] = true) (hX : shouldInstr cfg "#exit" ["exit"] = true)
+    (hEr : shouldInstr cfg "#error" [] = true) (hVal : shouldInstr cfg "#value" [] = true)
+    (fuel : Nat) (f : FunDef) (hf : coreF f = true) (hp : plainB (bodyWithReturn f) = true)
+    (st0 : St PyLite.World PyLite.HState) (h0 : MarkerFree PyLite.Good PyLite.WInv st0)
+    (hext : ∀ y ∈ (collect f).external, st0.loc y = none) :
+    ∃ w, (runInstr (ctxOf PyLite.hostObs cfg f fuel).envI fuel (instrument cfg f) st0).2.hs.events = st0.hs.events ++ w
+      ∧ ValProp (runInstr (ctxOf PyLite.hostObs cfg f fuel).envI fuel (instrument cfg f) st0).1 w := by
+  obtain ⟨e1, o1⟩ := instrument_refines PyLite.hostObs cfg f fuel hf
+    (libSpec_of_host PyLite.hostObs PyLite.hostSpecObs cfg f fuel hf) st0 hext
+  rw [e1, o1.hs]
+  exact value_once (scopeRef cfg f) cfg hE hX hEr hVal fuel f hf hp st0 h0
+
+/-- counting form: from an empty record, the number of `#value` events is 1 if the activation returns, else 0 -/
+theorem C06_value_count_partial (sc : String → Bool) (cfg : Cfg)
+    (hE : shouldInstr cfg "#enter" ["enter"] = true) (hX : shouldInstr cfg "#exit" ["exit"] = true)
+    (hEr : shouldInstr cfg "#error" [] = true) (hVal : shouldInstr cfg "#value" [] = true)
+    (fuel : Nat) (f : FunDef) (hf : coreF f = true) (hp : plainB (bodyWithReturn f) = true)
+    (st0 : St PyLite.World PyLite.HState) (h0 : MarkerFree PyLite.Good PyLite.WInv st0)
+    (hnone : st0.hs.events = []) :
+    ((runRef (recEnv sc cfg) fuel f st0).2.hs.events.filter isValueEv).length
+      = match (runRef (recEnv sc cfg) fuel f st0).1 with
+        | .ret _ => 1
+        | _ => 0 := by
+  obtain ⟨w, h1, h2⟩ := value_once sc cfg hE hX hEr hVal fuel f hf hp st0 h0
+  rw [h1, hnone, List.nil_append]
+  unfold ValProp at h2
+  cases hc : (runRef (recEnv sc cfg) fuel f st0).1 <;> rw [hc] at h2 <;> simp only at h2 ⊢
+  case ret v =>
+    have := congrArg List.length h2
+    simpa using this
+  all_goals (rw [h2]; rfl)
+
 /-- the automaton: an answered yield, an unanswered one followed by the next, a `#receive` out of the blue -/
 example : yr false ["#enter", "#yield", "#receive", "a", "#yield", "#yield", "#receive", "#exit"] = some false
     ∧ yr false ["#yield", "#receive", "#yield"] = some true
@@ -316,6 +371,26 @@ def sample : FunDef :=
 
 def sampleState : St PyLite.World PyLite.HState :=
   { loc := initLoc ["a"] [.int 5], w := {}, hs := {}, inp := [], out := [], cur := [] }
+
+/-- the hypotheses of the partial `#value` theorem hold of the example (non-vacuity) -/
+example : coreF Ptera.Props.C06.sample = true ∧ plainB (bodyWithReturn Ptera.Props.C06.sample) = true := by
+  decide +kernel
+
+/-- `def g(): try: return 1 finally: return 2` -/
+def sampleFinally : FunDef :=
+  { name := "g", params := [], defaults := [], returns := none, doc := none,
+    body := [.try [.ret (some (.int 1))] [] [] [.ret (some (.int 2))]], freevars := [] }
+
+/-- the witness that the FULL `#value` statement is false (finding F7c, in the model): the function is in the core
+    fragment, completes once by returning, and two `#value` events are recorded -/
+theorem C06_value_twice_with_finally :
+    coreF Ptera.Props.C06.sampleFinally = true
+    ∧ plainB (bodyWithReturn Ptera.Props.C06.sampleFinally) = false
+    ∧ ((runInstr (ctxOf PyLite.host [⟨none, none⟩] Ptera.Props.C06.sampleFinally 5).envI 5
+        (instrument [⟨none, none⟩] Ptera.Props.C06.sampleFinally)
+        { loc := initLoc [] [], w := {}, hs := {}, inp := [], out := [], cur := [] }).2.hs.events.map (·.name))
+      = ["#enter", "#value", "#value", "#exit"] := by
+  decide +kernel
 
 /-- a test: the events of a loop of two iterations, everything captured, through the rewritten code -/
 theorem C06_example_brackets :
